@@ -27,13 +27,16 @@ theorem parse_gen (i : BitVec 16) (c : BitVec 64) (hc : c.toNat < 2^48) :
   exact Prod.ext ha hb
 
 /-- **A cursor past the last node yields the terminating reply** (cursor "0", no keys),
-not an error: for every host count and node index ≥ it, every node cursor. -/
-theorem past_last_is_terminal (n i c : Nat) (hn : n ≤ 32767) (hi : i ≤ 32767) (hc : c < 2^48) (h : n ≤ i) :
+not an error: for every number of nodes, every node index a cursor can carry (up to 65535, i.e. every cursor
+up to 2^64 − 1) that is not below it, and every node cursor.  (Before the repair of F-18a the cursor was read as a
+signed number and this held up to node index 32767 only: `SCAN 18446744073709551615` was answered "invalid cursor".) -/
+theorem past_last_is_terminal (n i c : Nat) (hi : i ≤ 65535) (hc : c < 2^48) (h : n ≤ i) :
     (request n scanCmd [packed i c]).1 = .local respScanTerm := by
-  rw [request_packed_term n i c hn hi hc h]
+  rw [request_packed_term n i c hi hc h]
 
-theorem request_fwd_more (n : Nat) (idx : BitVec 16) (nc : BitVec 64) (v : Int) (c : Bytes) (more : List Bytes)
-   (h1 : parseInt64 c = some v) (h2 : parseCursor (toU64 v) = (idx, nc)) (h3 : pastLastNode idx n = false) :
+
+theorem request_fwd_more (n : Nat) (idx : BitVec 16) (nc : BitVec 64) (v : BitVec 64) (c : Bytes) (more : List Bytes)
+   (h1 : parseScanCursor c = some v) (h2 : parseCursor v = (idx, nc)) (h3 : pastLastNode idx n = false) :
     request n scanCmd (c :: more) = (.fwd idx.toNat (scanCmd :: natDigits nc.toNat :: more), idx) := by
   unfold request
   simp only [h1, h2, h3, Bool.false_eq_true, ↓reduceIte]
@@ -47,7 +50,7 @@ theorem args_pass_through (n i c : Nat) (more : List Bytes) (hn : n ≤ 32767) (
   have e3 : (BitVec.ofNat 64 c).toNat = c := by
     rw [BitVec.toNat_ofNat]; exact Nat.mod_eq_of_lt (by omega)
   have hp : pastLastNode (BitVec.ofNat 16 i) n = false := by
-    rw [pastLast_ofNat n i hn (by omega)]; exact decide_eq_false (by omega)
+    rw [pastLast_ofNat n i (by omega)]; exact decide_eq_false (by omega)
   have := request_fwd_more n _ _ _ _ more (parse_packed i c (by omega) hc) (parseCursor_packed i c (by omega) hc) hp
   rw [this, e2, e3]
 
@@ -83,11 +86,15 @@ theorem code_matches_model :
     Gen.ScanText.newScanRequest =
       ["body := raw.Body()",
       "if len(body.Array) < 2 { return nil, errors.New(invalidRequest) }",
-      "cursor, err := btoi64(body.Array[1].Text)",
+      "cursor, err := parseScanCursor(body.Array[1].Text)",
       "if err != nil { return nil, errors.New(invalidCursor) }",
       "r := &scanRequest{raw: raw}",
-      "r.nodeIdx, r.nodeCursor = r.parseCursor(uint64(cursor))",
+      "r.nodeIdx, r.nodeCursor = r.parseCursor(cursor)",
       "return r, nil"] ∧
+    Gen.ScanText.parseScanCursor =
+      ["if cursor, err := strconv.ParseUint(string(b), 10, 64); err == nil { return cursor, nil }",
+      "cursor, err := btoi64(b)",
+      "return uint64(cursor), err"] ∧
     Gen.ScanText.convert =
       ["sreq = newSimpleRequest(r.raw.Body())",
       "sreq.RegisterHook(func(req *simpleRequest) { r.raw.SetResponse(req.Response()) })",
@@ -98,11 +105,16 @@ theorem code_matches_model :
       ["scanReq, err := newScanRequest(req)",
       "if err != nil { req.SetResponse(newError(err.Error())) return }",
       "nodeIdx, simpleReq := scanReq.Convert()",
-      "hosts := u.Hosts()",
-      "if nodeIdx >= uint16(len(hosts)) { req.SetResponse(respScanTerm) return }",
-      "host := hosts[nodeIdx]",
-      "u.MakeRequestToHost(host.Addr, simpleReq)"] := by
-  refine ⟨rfl, rfl, rfl⟩
+      "addrs := scanAddrs(u)",
+      "if int(nodeIdx) >= len(addrs) { req.SetResponse(respScanTerm) return }",
+      "u.MakeRequestToHost(addrs[nodeIdx], simpleReq)"] ∧
+    Gen.ScanText.scanAddrs =
+      ["var ( addrs []string seen = make(map[string]struct{}) )",
+      "for i := range u.slots { inst := u.slots[i] if inst == nil { continue } if _, ok := seen[inst.Addr]; !ok { seen[inst.Addr] = struct{}{} addrs = append(addrs, inst.Addr) } }",
+      "if len(addrs) == 0 { for _, h := range u.Hosts() { addrs = append(addrs, h.Addr) } return addrs }",
+      "sort.Strings(addrs)",
+      "return addrs"] := by
+  refine ⟨rfl, rfl, rfl, rfl, rfl⟩
 
 end SamVerif.Props.C18
 
